@@ -10,7 +10,8 @@ Correspondence, per case (language, configuration, Rust source):
     table GRAMMAR below - of the TypeScript declaration grammar (Spec/C10TsGrammar.v), of the Go declaration grammar
     (Spec/C10GoGrammar.v: tokenizer with semicolon insertion + recursive descent, run on every real Go file), of the Kotlin
     declaration grammar (Spec/C10KtGrammar.v, on every real Kotlin file, single-file and folder mode) and of the Swift
-    declaration grammar (Spec/C10SwGrammar.v: tokenizer + recursive descent, run on every real Swift file) -, CPython ast.parse
+    declaration grammar (Spec/C10SwGrammar.v: tokenizer + recursive descent, run on every real Swift file), of the Scala declaration
+    grammar (Spec/C10ScGrammar.v: tokenizer, the newline rule of SLS 1.2, recursive descent after SLS chapter 13; every real Scala file) -, CPython ast.parse
     + a declaration grammar over its AST + import against lib/pydantic_stub for Python, the template recognisers of lib/extract.py
     (nothing unparsed, no anomaly) for all six, plus `= _` in a Scala parameter list;
   * dom_C10 / known_C10 (extracted) on the IR the REAL parser produced classify the case.
@@ -35,6 +36,7 @@ GRAMMAR = {
     'go': ('c10_go_parse', 'go-grammar', 'Spec/C10GoGrammar.v'),
     'kotlin': ('c10_kt_parse', 'kt-grammar', 'Spec/C10KtGrammar.v'),
     'swift': ('c10_sw_parse', 'sw-grammar', 'Spec/C10SwGrammar.v'),
+    'scala': ('c10_sc_parse', 'sc-grammar', 'Spec/C10ScGrammar.v'),
 }
 # recognisers that only know single-file output: the TypeScript grammar of Spec/C10TsGrammar.v has no import statement (the
 # import blocks of folder-mode files are judged by import_block_grammar below); the others parse their folder-mode files too
@@ -75,11 +77,14 @@ def grammar_judge(chk, lang, verdict, fails, why, where='', counter=''):
 #  Subscript) or an import failure at such a statement ('py-import-at-generic-alias') is a plain violation again; the witness stays
 #  in WITNESSES with label None and must pass every judgement, the import of the module included)
 PREDICTS = {
-    'C10-scala-default': {'scala-default'},
+    'C10-scala-default': {'scala-default', 'sc-grammar'},
+    'C10-scala-keyword-name': {'sc-grammar'},
+    'C10-scala-toplevel-alias': {'sc-grammar'},
+    'C10-scala-content-key': {'sc-grammar', 'identifier', 'template'},
     'C10-swift-label': {'swift-label', 'sw-grammar'},
     'C10-python-empty-union': {'py-syntax'},
     'C10-python-digit-name': {'py-syntax', 'identifier', 'template'},
-    'C10-digit-name': {'identifier', 'template', 'ts-grammar', 'go-grammar', 'kt-grammar', 'sw-grammar'},
+    'C10-digit-name': {'identifier', 'template', 'ts-grammar', 'go-grammar', 'kt-grammar', 'sw-grammar', 'sc-grammar'},
     'C10-python-generic-enum-arg': {'py-import-not-subscriptable'},
     'C10-go-keyword-name': {'go-grammar'},
 }
@@ -463,6 +468,8 @@ def judge(chk, cases, tag):
         kwq.append(kw_request(lang, obs[k][0], obs[k][1]))
         if lang == 'go':       # Go's own classifier: the finding class of the Go declaration grammar, on the IR the REAL parser produced
             gocq.append((k, f'(c10_go_cls {back.items_sx(r["ir"])})'))
+        if lang == 'scala':    # likewise the finding classes of the Scala declaration grammar (Spec.C10ScGrammar.known_C10_sc_grammar)
+            gocq.append((k, f'(c10_sc_cls {S(cfg.get("package", ""))} {back.items_sx(r["ir"])})'))
     cfgkeys = sorted(set((cases[k][0], json.dumps(cases[k][1], sort_keys=True)) for k in idx))
     cfgq = [f'(c10_cfg {l} {back.cfg_sx(json.loads(c))})' for l, c in cfgkeys]
     gocls = dict(zip([k for k, _ in gocq], vf.model([q for _, q in gocq])))
@@ -648,7 +655,7 @@ def phase_folder(chk, n):
             (d / 'ws' / c / 'src' / 'lib.rs').write_text(src)
         # Kotlin twice: the second time under a prefix - the import lines then carry it (`import com.p.lib_crate.KPItem0`, fix 26 of /repo)
         for label, extra in (('typescript', []), ('kotlin', ['--java-package', 'com.p']), ('kotlin+prefix', ['--java-package', 'com.p', '--kotlin-prefix', 'KP']),
-                             ('swift', []), ('python', []), ('go', ['--go-package', 'p'])):
+                             ('swift', []), ('python', []), ('go', ['--go-package', 'p']), ('scala', ['--scala-package', 'com.p'])):
             lang = label.split('+')[0]
             out = d / f'out_{label}'
             out.mkdir()
@@ -685,7 +692,10 @@ def phase_folder(chk, n):
 # label None = witness of a REPAIRED class (fixed in /repo): the case is in no class and every judgement must pass
 WITNESSES = [
     ('scala', {'package': 'onepassword'}, '#[typeshare]\npub struct A { pub x: String }\n', None),
-    ('scala', {'package': 'p'}, '#[typeshare]\npub type Al = Vec<u32>;\n#[typeshare]\npub struct A { pub x: u8 }\n#[typeshare]\npub enum E { U, V }\n', None),
+    ('scala', {'package': 'p'}, '#[typeshare]\npub struct A { pub x: i8 }\n#[typeshare]\npub enum E { U, V }\n', None),
+    ('scala', {'package': 'p'}, '#[typeshare]\npub type Al = Vec<u32>;\n#[typeshare]\npub struct A { pub x: u8 }\n#[typeshare]\npub enum E { U, V }\n', 'C10-scala-toplevel-alias'),
+    ('scala', {'package': 'com.x'}, '#[typeshare]\npub struct S { pub r#type: String, pub val: u8 }\n', 'C10-scala-keyword-name'),
+    ('scala', {'package': 'com.x'}, '#[typeshare]\n#[serde(tag = "t", content = "my-content")]\npub enum E { A(String), B { x: u8 } }\n', 'C10-scala-content-key'),
     ('scala', {'package': 'com.x'}, '#[typeshare]\npub struct A { #[serde(default)] pub x: String }\n', 'C10-scala-default'),
     ('swift', {}, '#[typeshare]\npub struct A { pub r#let: String, pub inout: u8 }\n', 'C10-swift-label'),
     ('python', {}, '#[typeshare]\npub type A<T> = Vec<T>;\n', None),
@@ -721,6 +731,9 @@ def lex_expectations(chk):
         grammar_judge(chk, lang, gv, fails, why, counter='_expectation')
         name = pathlib.Path(f).parent.name
         for k in fails:
+            if k == 'sc-grammar' and 'scala-default' in fails and chk.known('C10-scala-default', {'file': f}):
+                chk.count('expectation_file_in_class.C10-scala-default')
+                continue
             if k == 'py-grammar' and not any('Subscript' in w for w in why):
                 k = 'py-grammar-other'
             if k in blame and chk.known(blame[k], {'file': f}):
@@ -739,6 +752,7 @@ def run(chk):
     chk.assumptions = [
         'the six lexers of Spec/C10Spec.v are the definition of "delimiters, string literals and comments are closed" (no compiler of the five non-Python languages is installed)',
         'the Go declaration grammar is the recogniser of Spec/C10GoGrammar.v (written from the language specification; function bodies are only checked to be balanced token runs)',
+        'the Scala declaration grammar is the recogniser of Spec/C10ScGrammar.v (written from the Scala 2.13 Language Specification, chapters 1 and 13: operator identifiers, expressions beyond literals and stable identifiers, bounds and imports are outside the subset)',
         'the Swift declaration grammar is the recogniser of Spec/C10SwGrammar.v (written from the Summary of the Grammar of The Swift Programming Language; the bodies of init / func are only checked to be balanced token runs; line breaks are admitted between declarations / members, after `{`, before `}` and after a comma of a case / parameter list only)',
         'grammar conformance of ' + ', '.join(LANG_NAME[l] for l in GRAMMAR) + ' files is judged by the extracted Gallina recognisers of their declaration grammars (' + ', '.join(g[2] for g in GRAMMAR.values()) + '; proved in Props/C10.v to accept what the models print, on the domain of each theorem); for the others it is validated, not proved: CPython ast.parse + import against lib/pydantic_stub for Python; template recognisers of lib/extract.py for the others',
         'doc text is restricted to the safe predicate c10_doc_ok (doc-induced breakage is C15)',
